@@ -67,9 +67,53 @@ def spell_slice(a, b, form, n):
     raise ValueError(form)
 
 
+def _scribble(x):
+    """what a caller may do to a container it still owns"""
+    if isinstance(x, list):
+        x.reverse()
+        x.append(x[0] if x else 0)
+    elif isinstance(x, numpy.ndarray) and x.size and x.flags.writeable:
+        x[...] = x.flat[0] * 0
+    elif isinstance(x, dict):
+        x.clear()
+
+
+def caller_reuses(obj, what):
+    """The caller modifies, in place, the mutable arguments it handed to the call that made obj
+    ("args"), or what obj's observers returned to it ("returned").  obj itself is not touched."""
+    if what == "args":
+        for h in getattr(obj, "_c03_handed", []):
+            _scribble(h)
+    else:
+        _scribble(obj.to_dict())
+        _scribble(obj.seqs)
+        if hasattr(obj, "get_gap_array"):
+            try:
+                _scribble(obj.get_gap_array())
+                _scribble(obj.positions if isinstance(obj.positions, list) else [])
+            except Exception:
+                pass
+    return obj
+
+
 def apply(obj, act, args, n, fresh_other=None):
     """Make the real call for spec label (act, args) on obj; returns the real result.
-    n is the number of columns of the receiver according to the spec state."""
+    n is the number of columns of the receiver according to the spec state.
+    The mutable containers handed to the call stay attached to the result (harness-side
+    attribute) so that a later CallerReuses step can modify them."""
+    if act == "CallerReuses":
+        return caller_reuses(obj, args[0])
+    handed = []
+    res = _apply(obj, act, args, n, fresh_other, handed)
+    if res is not None and not isinstance(res, dict) and res is not obj:
+        try:
+            res._c03_handed = handed
+        except Exception:
+            pass
+    return res
+
+
+def _apply(obj, act, args, n, fresh_other, handed):
     if act == "Slice":
         a, b, form = args
         return obj[spell_slice(a, b, form, n)]
@@ -87,10 +131,13 @@ def apply(obj, act, args, n, fresh_other=None):
     if act == "TakePositions":
         cols, neg, form = args
         cols = list(cols) if form == "list" else tuple(cols) if form == "tuple" else numpy.array(cols, dtype=int)
+        handed.append(cols)
         return obj.take_positions(cols, negate=True) if neg else obj.take_positions(cols)
     if act == "TakeSeqs":
         names, neg = args
-        return obj.take_seqs(list(names), negate=True) if neg else obj.take_seqs(list(names))
+        names = list(names)
+        handed.append(names)
+        return obj.take_seqs(names, negate=True) if neg else obj.take_seqs(names)
     if act == "OmitGapPos":
         num, den, ml = args
         kw = {} if ml == 1 else {"motif_length": ml}
@@ -108,11 +155,13 @@ def apply(obj, act, args, n, fresh_other=None):
     if act == "SampleRepl":
         locs, ml = args
         arr = numpy.array(locs, dtype=int)
-        return obj.sample(n=len(locs), with_replacement=True, motif_length=ml, randint=lambda lo, hi, size: arr.copy())
+        handed.append(arr)
+        return obj.sample(n=len(locs), with_replacement=True, motif_length=ml, randint=lambda lo, hi, size: arr)
     if act == "SamplePerm":
         perm, k, ml = args
         arr = numpy.array(perm, dtype=int)
-        return obj.sample(n=k, motif_length=ml, permutation=lambda size: arr.copy())
+        handed.append(arr)
+        return obj.sample(n=k, motif_length=ml, permutation=lambda size: arr)
     if act == "Concat":
         w = args[0]
         if w == "self":
